@@ -155,6 +155,7 @@ structure Job where
   newVer : Nat := 0
   prev : Nat := 0
   prevZero : Bool := false
+  nfRead : Nat := 0               -- commit: `nextFileNumber.Load()` logged as NextFileNumber(n)
   dlist : List Nat := []          -- deleteObsoleteFiles: directory listing
   live : List Nat := []           --   liveFiles
   todoDel : List Nat := []        --   files still to evict + remove
@@ -163,6 +164,7 @@ deriving Repr, Inhabited
 structure Cfg where
   recheck : Bool          -- removeVersion re-checks `ref == 0` under the family lock
   cloneLocked : Bool := true -- CommitFamilyEditLog takes its snapshot and clones INSIDE the version-set mutex
+  allocLocked : Bool := true -- storeVersionSet.NextFileNumber takes the version-set mutex
   threshold : Nat := 2    -- FamilyOption.CompactThreshold
   rollupOn : Bool := false -- StoreOption.Rollup non-empty: a flush marks its output for rollup
   /-- the family's merger (kv.Merger): what a compaction writes for the contents of its inputs.
@@ -273,8 +275,10 @@ def jCreate (cfg : Cfg) (s : St) (j : Nat) : St :=
 
 def setLock (s : St) (l : Option Nat) : St := { s with lock := l }
 
-/-- `CommitFamilyEditLog`: `vs.mutex.Lock()` (+ persist to the manifest: C01's model) -/
-def jLock (s : St) (j : Nat) : St := setLock (setPc s j .cLocked) (some j)
+/-- `CommitFamilyEditLog`: `vs.mutex.Lock()`, `NewNextFileNumber(nextFileNumber.Load())` is added
+to the edit log (the park point after it is the manifest write + sync: C01's model) -/
+def jLock (s : St) (j : Nat) : St :=
+  setLock (s.setJob j { s.job j with nfRead := s.nextFile, pc := .cLocked }) (some j)
 
 /-- `Clone()` (`newVersionID`) + `editLog.apply` (its `NextFileNumber` record bumps
 `nextFileNumber`): thread-local data and two counters -/
@@ -283,9 +287,16 @@ def buildVersion (s : St) (e : Edit) : St :=
            nextVer := s.nextVer + 1
            nextFile := s.nextFile + 1 }
 
+/-- `buildVersion` with the blind store `setNextFileNumberWithoutLock(n)`: the counter becomes
+n + 1 for the n the commit read when it took the mutex -/
+def buildVersionAt (s : St) (e : Edit) (n : Nat) : St :=
+  { s with ver := upd s.ver s.nextVer (applyEdit (s.ver s.cur) e)
+           nextVer := s.nextVer + 1
+           nextFile := n + 1 }
+
 /-- `familyVersion.GetSnapshot()` (retain current), then clone + apply. -/
 def jSnap (s : St) (j : Nat) : St :=
-  (buildVersion (snapAcquire s (some j)) (s.job j).edit).setJob j
+  (buildVersionAt (snapAcquire s (some j)) (s.job j).edit (s.job j).nfRead).setJob j
     { s.job j with csnap := s.nSnap, newVer := s.nextVer, prev := s.cur, pc := .cSnapped }
 
 /-- variant `cloneLocked = false` (snapshot + Clone before `vs.mutex.Lock()`): the clone alone -/
@@ -392,14 +403,14 @@ def jstep (cfg : Cfg) (s : St) (j : Nat) : Option St :=
     match b.pc with
     | .start =>
       match b.kind with
-      | .flush => if s.lock = none then some (jAlloc s j b.payload 0) else none
+      | .flush => if cfg.allocLocked = true → s.lock = none then some (jAlloc s j b.payload 0) else none
       | .compact => if s.compacting then none else some (jStartCompact cfg s j)
       | .rollupDone => some (s.setJob j { b with edit := { rollDel := b.payload.map (·.1) }, pc := .ready })
       | .delObs => some (setPc s j .doStart)
     | .picked => some (jPicked s j)
     | .reading => some (jRead s j)
     | .merging =>
-      if s.lock = none then some (jAlloc s j (cfg.merge (b.inputs.map (fun m => s.content m.no))) 1) else none
+      if cfg.allocLocked = true → s.lock = none then some (jAlloc s j (cfg.merge (b.inputs.map (fun m => s.content m.no))) 1) else none
     | .allocd => some (jCreate cfg s j)
     | .ready =>
       if b.edit.isEmpty then some (setPc s j .cUnlocked)
@@ -512,7 +523,7 @@ def readKey (s : St) (i k : Nat) : Option (List (Nat × List Nat)) :=
 /-- does the schedule park after this pc? (yield points / seams of the instrumented code;
 used only by the driver's `run` command, not by any theorem) -/
 def isPark (k : JKind) : Pc → Bool
-  | .picked | .merging | .allocd | .cSnapped | .cSwapped | .cDecd | .cRemoved | .oDecd | .oRemoved
+  | .picked | .merging | .allocd | .cLocked | .cSnapped | .cSwapped | .cDecd | .cRemoved | .oDecd | .oRemoved
   | .doListed | .doPended | .doActived | .doRolled | .doEvicted | .doRemoved | .done => true
   | .ready => k == .flush
   | _ => false
@@ -546,6 +557,15 @@ def commit : List String :=
   ["mutex.Lock", "defer:mutex.Unlock", "vs.persistEditLogs", "familyVersion.GetSnapshot", "defer:snapshot.Close",
    "snapshot.GetCurrent().Clone", "editLog.apply", "familyVersion.appendVersion"]
 def nextFileNumber : List String := ["mutex.Lock", "defer:mutex.Unlock", "nextFileNumber.Inc"]
+/-- `family.rollup` (source side): the `DeleteRollupFile` records of a target are created only after
+that target's `doRollupWork` succeeded; the commit follows the loop; deleteObsoleteFiles is
+deferred. A job whose targets are all absent / failing therefore commits nothing and reduces to
+its deferred deleteObsoleteFiles (the model's `delObs` job); a job whose targets succeeded ends
+with the model's `rollupDone` commit. -/
+def rollupJob : List String :=
+  ["rolluping.CompareAndSwap", "defer{", "f.deleteObsoleteFiles", "}", "familyVersion.GetLiveRollupFiles",
+   "GetStoreManager().GetStoreByName", "targetStore.CreateFamily", "targetFamily.doRollupWork",
+   "version.CreateDeleteRollupFile", "f.commitEditLog", "targetFamily.cleanReferenceFiles"]
 /-- `family.newTableBuilder`: `jAlloc` (number + pending mark) before `jCreate` (file) -/
 def newTableBuilder : List String := ["store.nextFileNumber", "f.addPendingOutput", "table.NewStoreBuilder"]
 /-- `family.deleteObsoleteFiles`: `doList`, `doPend`, `doActive`, `doRollup`, then `doEvict` before `doRemove` -/
